@@ -456,7 +456,10 @@ func (c *ClientConn) SendUpstreamOpenRequest(ctx context.Context, req *message.U
 	if err != nil {
 		return nil, err
 	}
-	c.openUpstream(ctx, req.QoS, res.AssignedStreamID, res.AssignedStreamIDAlias)
+	if res.ResultCode == message.ResultCodeSucceeded {
+		// 拒否された応答のエイリアス（ゼロ値）で他のストリームの登録を上書きしないよう、成功時のみ登録します。
+		c.openUpstream(ctx, req.QoS, res.AssignedStreamID, res.AssignedStreamIDAlias)
+	}
 
 	return res, nil
 }
@@ -476,7 +479,9 @@ func (c *ClientConn) SendUpstreamResumeRequest(ctx context.Context, req *message
 		return nil, err
 	}
 
-	c.openUpstream(ctx, qoS, req.StreamID, res.AssignedStreamIDAlias)
+	if res.ResultCode == message.ResultCodeSucceeded {
+		c.openUpstream(ctx, qoS, req.StreamID, res.AssignedStreamIDAlias)
+	}
 
 	return res, nil
 }
